@@ -220,6 +220,12 @@ class Analysis:
             m = mirror.get(type(test.ops[0]))
             if m is not None:
                 test = ast.copy_location(ast.Compare(left=test.comparators[0], ops=[m()], comparators=[test.left]), test)
+        # a private predicate property (`self._holds_resources` with the getter `return self._reserved_resources != None`) is the condition
+        # its getter returns
+        if is_self_attr(test) and test.attr not in self.tracked:
+            r_ = self._trivial_getter(frame, test.attr)
+            if r_ is not None and isinstance(r_, (ast.Compare, ast.BoolOp, ast.UnaryOp, ast.Call)):
+                return self.refine_cond(r_, truth, st, frame) if hasattr(self, 'refine_cond') else self.refine(r_, truth, st, frame)
         for h in self.refine_hooks:
             r = h(self, test, truth, st, frame)
             if r is not NotImplemented:
